@@ -193,9 +193,9 @@ func setupMulti() (*multiEnv, error) {
 	}
 	lk := func(host string) *route.Target { return e.lookup(nil, host) }
 	handlers := map[string]tcp.Handler{
-		"tcp": &tcp.Proxy{Lookup: lk, DialTimeout: 2 * time.Second},
-		"sni": &tcp.SNIProxy{Lookup: lk, DialTimeout: 2 * time.Second},
-		"dyn": &tcp.DynamicProxy{Lookup: lk, DialTimeout: 2 * time.Second},
+		"tcp": &tcp.Proxy{Lookup: lk, DialTimeout: 10 * time.Second},
+		"sni": &tcp.SNIProxy{Lookup: lk, DialTimeout: 10 * time.Second},
+		"dyn": &tcp.DynamicProxy{Lookup: lk, DialTimeout: 10 * time.Second},
 	}
 	for _, pp := range []bool{false, true} {
 		suffix := ""
@@ -314,12 +314,12 @@ func runMulti(raw json.RawMessage) (interface{}, error) {
 		host = "::1"
 	}
 	addr := net.JoinHostPort(host, e.ports[key])
-	c, err := net.DialTimeout("tcp", addr, 2*time.Second)
+	c, err := dialClient(addr)
 	if err != nil {
 		return nil, fmt.Errorf("dial proxy %s: %v", addr, err)
 	}
 	defer c.Close()
-	c.SetDeadline(time.Now().Add(8 * time.Second))
+	c.SetDeadline(time.Now().Add(20 * time.Second))
 	peer := c.LocalAddr().String()
 	var tcpIP net.IP
 	if in.PP {
